@@ -1577,6 +1577,23 @@ def bag_conversion_points(ctx):
     return ctx.cache[key]
 
 
+def _covers_len(t, lens, depth=0):
+    """t >= some input-length term of `lens`, structurally"""
+    if t is None or depth > 12:
+        return False
+    if t in lens or (t[0] == 'field' and t[1] in lens and t[2] == 1):
+        return True
+    if t[0] == 'bin' and t[1] == 'Add':
+        return _covers_len(t[2], lens, depth + 1) or _covers_len(t[3], lens, depth + 1)
+    if t[0] == 'bin' and t[1] == 'Mul':
+        return (_covers_len(t[2], lens, depth + 1) and const_int(t[3]) and t[3][1] >= 1) or (_covers_len(t[3], lens, depth + 1) and const_int(t[2]) and t[2][1] >= 1)
+    if t[0] == 'call' and term_method(t) in ('max', 'saturating_add', 'checked_add', 'wrapping_add', 'unwrap_or', 'unwrap', 'expect', 'next_power_of_two'):
+        return any(_covers_len(a, lens, depth + 1) for a in t[2])
+    if t[0] == 'set':
+        return all(_covers_len(x, lens, depth + 1) for x in t[1])
+    return False
+
+
 @rule('C01-RESERVE', 'a capacity reservation on the target precedes every conversion into the positional (ordered) bag')
 def c01_reserve(ctx):
     out = RuleOut('C01-RESERVE')
@@ -1628,6 +1645,8 @@ def c01_reserve(ctx):
                                 why = why or 'constant bound where the input length is unknown'
                         else:
                             okk, why = False, 'the reserved amount %s does not depend on the input length' % t_str(amount)[:100]
+                    elif not _covers_len(amount, in_len):
+                        okk, why = False, 'the reserved amount %s is not at least the input length (only the length itself, sums and maxima containing it, or its product with a constant >= 1 are)' % t_str(amount)[:100]
                     elif total_api and not tgt_len:
                         okk, why = False, 'reserve_maximum_concurrent_capacity takes a TOTAL capacity but is given %s, which omits the target\'s existing length' % t_str(amount)[:100]
                     else:
@@ -2875,6 +2894,140 @@ def c05_fallible(ctx):
         if not ok:
             out.fail(key, '%s returns %s: %s' % (key_of(b), t_str(ret)[:100], 'has_value must be is_some / is_ok of self' if m == 'has_value' else 'value must be the unwrap of self'), b.where())
     out.floor('fallible_methods', n, 2 if not ctx.fixture else 0)
+    return out
+
+
+# ======================================================================================= C01-NOSHUFFLE / C01-KEEP
+SHUFFLE_ITER = {'rev', 'skip', 'take', 'step_by', 'take_while', 'skip_while', 'map_while', 'cycle', 'chain', 'zip', 'last', 'nth', 'scan', 'dedup', 'peekable'}
+
+
+@rule('C01-NOSHUFFLE', 'the API layer (sources, transformations, terminals, collect_into impls) passes collections and results through untouched: no reordering, truncating, skipping or deduplicating std operation')
+def c01_noshuffle(ctx):
+    """The kernels produce the elements in the right order and number (C01-KEY, C01-MERGE, C05-*).  Between the user and the kernels
+    the library only wires things together: a source is wrapped whole (C05-SOURCE), a terminal returns what its kernel returns, an
+    eager transformation feeds the intermediate vector on as it is.  None of these bodies has any business calling `rev`, `skip`,
+    `take`, `step_by`, `*_while`, `chain`, `zip` ... on an iterator or `reverse`, `sort*`, `truncate`, `retain`, `dedup`, `swap`,
+    `drain`, `remove`, `insert` ... on a collection."""
+    out = RuleOut('C01-NOSHUFFLE')
+    F = ctx.facts
+    S = ctx.slots
+    hosts = set(S.sources) | set(S.transformations) | set(S.terminals) | set(S.inherent_terminals) | set(getattr(S, 'inherent_transformations', ()) or ()) \
+        | set(getattr(S, 'inherent_helpers', ()) or ())
+    for b in F.bodies.values():
+        if b.d.get('impl_trait') == COLLECT_INTO_CORE:
+            hosts.add(b.name)
+    n = 0
+    for hn in sorted(hosts):
+        hb = F.bodies.get(hn)
+        if hb is None:
+            continue
+        for b in [hb] + F.closures_in(hb, recursive=True):
+            n += 1
+            bad = []
+            for bb, t in b.calls():
+                if t.get('exp') or t.get('local'):
+                    continue
+                d_ = decl(t)
+                m = method(t)
+                p = res(t)
+                if d_.startswith(ITER) and m in SHUFFLE_ITER:
+                    bad.append((t, 'Iterator::' + m))
+                elif m in BUF_DISTURB and m not in ('take', 'insert') and p.startswith(('std::vec::', 'std::slice::', 'alloc::', 'core::slice::', 'std::collections::')):
+                    bad.append((t, p.split('::')[-2] + '::' + m if '::' in p else m))
+                elif m == 'insert' and p.startswith(('std::vec::', 'alloc::vec::')):
+                    bad.append((t, 'Vec::insert'))
+            key = 'C01-NOSHUFFLE/' + key_of(b)
+            out.inst(key, not bad, '%d calls' % len(list(b.calls())), nontrivial=False)
+            for (t, what) in bad[:2]:
+                out.fail(key + '/' + what.split('::')[-1], '%s calls `%s`: the API layer must hand collections and results on as they are - the order or number of elements a kernel produced (or will consume) changes here' % (key_of(b), what), b.where(t.get('line')))
+    out.floor('api_bodies', n, 60 if not ctx.fixture else 0)
+    return out
+
+
+TERMINAL_METHODS = {'collect_vec', 'collect', 'collect_x', 'collect_into', 'count', 'reduce', 'fold', 'sum', 'min', 'max', 'min_by', 'max_by', 'min_by_key', 'max_by_key',
+                    'find', 'first', 'any', 'all', 'for_each', 'find_with_index', 'first_with_index'}
+
+
+@rule('C01-KEEP', 'no stage closure is lost on the way: a transformation\'s result holds its own closure and every closure of self; a terminal hands all of them to its kernel')
+def c01_keep(ctx):
+    """C01-COMPOSE judges how a composed closure uses the closures it captures - it cannot see one that is no longer captured.
+    For every transformation and terminal: each stage closure in reach (the method's own Fn-bounded parameter, every Fn-typed
+    field of `self`) must be part of the value the method returns (transformations) or of the arguments of a call it makes
+    (terminals: the kernel / the delegate terminal) - on every alternative of the result."""
+    from .rules_struct import user_closure_values
+    out = RuleOut('C01-KEEP')
+    F = ctx.facts
+    S = ctx.slots
+    n = 0
+
+    def closure_fields(b):
+        """terms self.<i> whose field type is an Fn-bounded type parameter of the impl"""
+        outl = []
+        st = b.d.get('impl_self') or ''
+        if not st.startswith('adt:'):
+            return outl
+        adt = F.adts.get(st[4:])
+        if not adt or len(adt.get('variants', [])) != 1:
+            return outl
+        fbs = b.fn_bounds()
+        for i, f in enumerate(adt['variants'][0]['fields']):
+            if f.get('ty') in fbs:
+                outl.append((('field', P('self'), None, i), f.get('name') or str(i), f.get('ty')))
+        return outl
+
+    def mentions(t, c):
+        """c occurs in t; for a field of self also: self occurs as a whole (moved into a delegate / constructor) - a projection
+        `self.<j>` of another field does not count"""
+        st, seen_ = [t], set()
+        while st:
+            x = st.pop()
+            if x is None or x in seen_:
+                continue
+            seen_.add(x)
+            if x == c:
+                return True
+            if x[0] == 'field' and x[1] == P('self'):
+                continue
+            if c[0] == 'field' and x == P('self'):
+                return True
+            st.extend(children(x))
+        return False
+
+    trs = set(S.transformations) | set(getattr(S, 'inherent_transformations', ()) or ())
+    for tn in sorted(trs | set(S.terminals) | set(S.inherent_terminals) | set(getattr(S, 'inherent_helpers', ()) or ())):
+        b = F.bodies.get(tn)
+        if b is None or not any((b.local_name(l) or '') == 'self' for l in b.arg_locals()):
+            continue
+        fbs = b.fn_bounds()
+        own = [(P(b.local_name(l)), b.local_name(l), local_type_param(b, l)) for l in b.arg_locals() if local_type_param(b, l) in fbs and (b.local_name(l) or '') != 'self']
+        stages = own + closure_fields(b)
+        if not stages:
+            continue
+        r = ctx.run(tn)
+        is_tr = tn in trs
+        n += 1
+        key = 'C01-KEEP/' + key_of(b)
+        lost = []
+        for (c, nm, tp) in stages:
+            if is_tr:
+                ok = r.ret is not None and all(mentions(alt, c) for alt in alternatives(r.ret))
+                if not ok:
+                    # an eager transformation consumes self in a terminal call and stores only the new closure
+                    term_calls = [cc for _, cc in r.call_sites() if cc['t'].get('method') in TERMINAL_METHODS or (cc['t'].get('resolved') or '') in S.terminals
+                                  or (cc['t'].get('resolved') or '') in S.inherent_terminals]
+                    ok = c[0] == 'field' and any(mentions(a, c) for cc in term_calls for a in cc['args'] if a is not None)
+            elif r.ret is not None and all(mentions(alt, c) for alt in alternatives(r.ret)):
+                ok = True       # a private helper that returns the pieces of the new computation (`compose`)
+            else:
+                helpers = set(getattr(S, 'inherent_helpers', ()) or ())
+                real_calls = [cc for _, cc in r.call_sites() if (cc['t'].get('resolved') or '') not in helpers and method(cc['t']) not in ('destruct', 'destruct_x', 'params')]
+                ok = any(mentions(a, c) for cc in real_calls for a in cc['args'] if a is not None)
+            if not ok:
+                lost.append(nm)
+        out.inst(key, not lost, '%d stage closure(s) kept' % len(stages), sample={'method': key_of(b), 'stage_closures': [nm for (_, nm, _) in stages]})
+        for nm in lost[:2]:
+            out.fail(key + '/' + nm, '%s does not pass the stage closure `%s` on: it is neither part of the returned computation nor of any call - the stage silently disappears from the pipeline' % (key_of(b), nm), b.where())
+    out.floor('methods_with_stage_closures', n, 30 if not ctx.fixture else 0)
     return out
 
 
